@@ -6,7 +6,7 @@
    3. the refinement / composite theorems for the instance the text denotes;
    4. each alternative the translator recognises violates the property (witnesses).       *)
 From Coq Require Import NArith ZArith List Bool Lia Permutation String.
-From V Require Import Base.UString Model.Store Model.StoreRun Model.StoreCases Model.StoreCfg Spec.StoreSpec
+From V Require Import Base.UString Model.Store Model.StoreRun Model.StoreCases Model.StoreCfg Spec.StoreSpec Spec.StoreNavSpec
   Proofs.StoreBase Proofs.StoreMem Proofs.StoreFs Proofs.StoreAgree Proofs.StoreComposite Proofs.StoreNav
   Gen.StoreFacts.
 Import ListNotations.
@@ -287,4 +287,26 @@ Proof. vm_compute. split; reflexivity. Qed.
 Lemma alt_key_id_refuted :
   call_g cfg_key_id [] [mem_of [v_obj a_id 1 1; v_obj a_id 2 2]] [] a_id = Ok [v_obj a_id 2 2] /\
   call [] [mem_of [v_obj a_id 1 1; v_obj a_id 2 2]] [] a_id = Ok [v_obj a_id 1 1; v_obj a_id 2 2].
+Proof. vm_compute. split; reflexivity. Qed.
+
+(* `<=` instead of `>` in the latest tracking: a newer version never replaces the first one *)
+Lemma alt_latest_le_refuted :
+  mem_get [] a_id (mem_run_g TextOrder no_iot (cfg_latest CmpLe) [v_obj a_id 1 1; v_obj a_id 2 2]) = Some (v_obj a_id 1 1).
+Proof. vm_compute. reflexivity. Qed.
+
+(* `>=` instead of `>` is NOT refuted: it still returns a version with the greatest modified (of two copies of
+   the same version, the one added last instead of the one added first) *)
+Lemma alt_latest_ge_still_newest :
+  mem_get [] a_id (mem_run_g TextOrder no_iot (cfg_latest CmpGe) [v_obj a_id 1 1; v_obj a_id 2 2; v_obj a_id 2 3]) = Some (v_obj a_id 2 3) /\
+  mem_get [] a_id (mem_run TextOrder no_iot [v_obj a_id 1 1; v_obj a_id 2 2; v_obj a_id 2 3]) = Some (v_obj a_id 2 2).
+Proof. vm_compute. split; reflexivity. Qed.
+
+Definition cfg_cget (op : cmp_op) : store_cfg :=
+  mk_store_cfg KeyModified CmpGt AllChained SortModified PickLast FormatStrip Refuse CaseInsensitive
+               op UpdateOnTake AllMembers Merged Merged Merged KeyIdVer Federated GenericScan StoreThenSource.
+
+(* `<` / `<=` instead of `>` in CompositeDataSource.get: the oldest / the first member's version *)
+Lemma alt_cget_lt_refuted :
+  cget_g (cfg_cget CmpLt) [] [mem_of [v_obj a_id 2 1]; mem_of [v_obj a_id 1 2]] [] a_id = Ok (Some (v_obj a_id 1 2)) /\
+  cget_g (cfg_cget CmpLe) [] [mem_of [v_obj a_id 1 1]; mem_of [v_obj a_id 2 2]] [] a_id = Ok (Some (v_obj a_id 1 1)).
 Proof. vm_compute. split; reflexivity. Qed.
